@@ -8,9 +8,12 @@ package cache
 
 import (
 	"context"
+	"encoding/json"
 	"fmt"
 	"math/rand"
 	"net/netip"
+	"os"
+	"path/filepath"
 	"strings"
 	"testing"
 	"time"
@@ -35,6 +38,19 @@ func TestVerifC04Entry(t *testing.T) {
 	r := rand.New(rand.NewSource(seed + 4040))
 	n := vC04EnvInt("VERIF_N", 1200)
 
+	// fixed regression inputs first (seeded changes C04-4, C04-6, mutations M7, M9, M12, ...)
+	if raw, err := os.ReadFile(filepath.Join(os.Getenv("VERIF_CORPUS"), "hist.jsonl")); err == nil {
+		for _, line := range strings.Split(string(raw), "\n") {
+			if line = strings.TrimSpace(line); line == "" || strings.HasPrefix(line, "#") {
+				continue
+			}
+			plan := new(vC04HistPlan)
+			if err := json.Unmarshal([]byte(line), plan); err != nil {
+				t.Fatalf("corpus hist.jsonl: %v", err)
+			}
+			vC04CaseHist(out, r, plan)
+		}
+	}
 	for c := 0; c < n; c++ {
 		switch {
 		case c%6 == 0:
@@ -42,9 +58,25 @@ func TestVerifC04Entry(t *testing.T) {
 		case c%6 == 1:
 			vC04CaseFold(out, r)
 		default:
-			vC04CaseHist(out, r)
+			vC04CaseHist(out, r, nil)
 		}
 	}
+}
+
+// vC04HistPlan is one fixed scenario of corpus/C04/hist.jsonl: a positive answer (one A
+// record, optionally a glue record with its own TTL in the additional section) admitted
+// through entry point How with an optional lease, then hits on given routes after given
+// clock steps.
+type vC04HistPlan struct {
+	Name     string `json:"name"`
+	TTL      uint32 `json:"ttl"`
+	ExtraTTL uint32 `json:"extra_ttl"` // 0: no additional section
+	How      int    `json:"how"`       // 0 SetFromResponseWithKey, 2 client path, 3 Cache.Set, 4 ReplaceIfCurrent
+	LeaseMs  int64  `json:"lease_ms"`  // 0: no lease
+	Steps    []struct {
+		ShiftMs int64 `json:"shift_ms"`
+		Route   int   `json:"route"` // 0 cache alone, 1 edns+cache byte path, 2 wire-born, 3 forced Msg path, 4 Store.GetWithContext
+	} `json:"steps"`
 }
 
 // CRemain / CBound: exact arithmetic with explicit instants, boundaries included.
@@ -155,9 +187,12 @@ func vC04CaseFold(out *vC04Out, r *rand.Rand) {
 
 // CHist: one key; admission through one entry point, then hits on serving
 // routes while the clock is stepped towards and past the end of the lifetime.
-func vC04CaseHist(out *vC04Out, r *rand.Rand) {
+func vC04CaseHist(out *vC04Out, r *rand.Rand, plan *vC04HistPlan) {
 	ecsChoices := []time.Duration{0, 0, 3 * time.Second, 8 * time.Second, 30 * time.Second, 600 * time.Second, 48 * time.Hour}
 	ecsMax := ecsChoices[r.Intn(len(ecsChoices))]
+	if plan != nil {
+		ecsMax = 0
+	}
 	env := vC04NewEnv(0, ecsMax, 600)
 	defer env.close()
 	k := env.k
@@ -185,6 +220,18 @@ func vC04CaseHist(out *vC04Out, r *rand.Rand) {
 		default:
 			cutOff = time.Duration(r.Intn(400000)) * time.Millisecond
 		}
+	}
+	if plan != nil {
+		// the scenario overrides every drawn choice
+		name, kind, signed, cd, how = "www.c04.test.", 0, false, false, plan.How
+		resp = new(dns.Msg)
+		resp.SetQuestion(name, dns.TypeA)
+		resp.Response, resp.RecursionAvailable = true, true
+		resp.Answer = []dns.RR{&dns.A{Hdr: dns.RR_Header{Name: name, Rrtype: dns.TypeA, Class: dns.ClassINET, Ttl: plan.TTL}, A: []byte{192, 0, 2, 1}}}
+		if plan.ExtraTTL != 0 {
+			resp.Extra = []dns.RR{&dns.A{Hdr: dns.RR_Header{Name: "ns1.c04.test.", Rrtype: dns.TypeA, Class: dns.ClassINET, Ttl: plan.ExtraTTL}, A: []byte{192, 0, 2, 53}}}
+		}
+		hasCut, cutOff = plan.LeaseMs != 0 && how != 3, time.Duration(plan.LeaseMs)*time.Millisecond
 	}
 	var scope netip.Prefix
 	var ecsOpt *dns.EDNS0_SUBNET
@@ -284,6 +331,9 @@ func vC04CaseHist(out *vC04Out, r *rand.Rand) {
 		desc["entry_ttl"] = e.ttl.String()
 	}
 	kname := fmt.Sprintf("hist-how%d-%s", how, vC04Class(mt))
+	if plan != nil {
+		kname = "corpus-" + kname
+	}
 	if e == nil {
 		// nothing admitted: every route must miss
 		rep := env.query(r.Intn(3), name, false, cd, ecsOpt, client)
@@ -307,6 +357,9 @@ func vC04CaseHist(out *vC04Out, r *rand.Rand) {
 	last := int64(-1)
 	fail := ""
 	steps := 3 + r.Intn(5)
+	if plan != nil {
+		steps = len(plan.Steps)
+	}
 	for s := 0; s < steps; s++ {
 		// step the clock: to a fractional offset before/after the end, or a random stride
 		nowV := k.now()
@@ -331,10 +384,13 @@ func vC04CaseHist(out *vC04Out, r *rand.Rand) {
 				target = nowV + int64(time.Second)
 			}
 		}
+		route := r.Intn(5)
+		if plan != nil {
+			target, route = nowV+plan.Steps[s].ShiftMs*int64(time.Millisecond), plan.Steps[s].Route
+		}
 		if target > nowV {
 			vC04Shift(env.c, k, time.Duration(target-nowV))
 		}
-		route := r.Intn(5)
 		if scoped {
 			route = 0
 		}
